@@ -357,36 +357,35 @@ def _handle_fn_body(body: list[ast.stmt], ctx: Context) -> sympy.Expr | None:
             return _handle_expr(value, ctx)
 
         if isinstance(node, ast.Assign):
-            # Handle tuple assignments like c, d = a, b
-            if isinstance(node.targets[0], ast.Tuple):
-                # Handle tuple unpacking
-                target_elements = node.targets[0].elts
-
-                if isinstance(node.value, ast.Tuple):
-                    # Direct unpacking like c, d = a, b
-                    value_elements = node.value.elts
-                    # Evaluate the whole right-hand side before binding any name
-                    exprs = [_handle_expr(i, ctx) for i in value_elements]
-                    if any(i is None for i in exprs):
-                        return None
-                    for target, expr in zip(target_elements, exprs, strict=True):
-                        if not isinstance(target, ast.Name):
-                            msg = "Only single variable assignments are supported"
-                            raise TypeError(msg)
-                        ctx.symbols[target.id] = cast(sympy.Expr, expr)
-                else:
-                    # Handle potential iterable unpacking
-                    value = _handle_expr(node.value, ctx)
+            # The right-hand side is evaluated once, before any name is bound:
+            # c, d = a, b unpacks a tuple display, a = b = value binds every target
+            elements: list[sympy.Expr] | None = None
+            value: sympy.Expr | None = None
+            if isinstance(node.value, ast.Tuple):
+                exprs = [_handle_expr(i, ctx) for i in node.value.elts]
+                if any(i is None for i in exprs):
+                    return None
+                elements = cast(list[sympy.Expr], exprs)
             else:
-                # Regular single assignment
-                if not isinstance(target := node.targets[0], ast.Name):
-                    msg = "Only single variable assignments are supported"
-                    raise TypeError(msg)
-                target_name = target.id
                 value = _handle_expr(node.value, ctx)
                 if value is None:
                     return None
-                ctx.symbols[target_name] = value
+
+            for target in node.targets:
+                if isinstance(target, ast.Tuple):
+                    if elements is None:
+                        msg = "Only tuple displays can be unpacked"
+                        raise TypeError(msg)
+                    for sub_target, expr in zip(target.elts, elements, strict=True):
+                        if not isinstance(sub_target, ast.Name):
+                            msg = "Only single variable assignments are supported"
+                            raise TypeError(msg)
+                        ctx.symbols[sub_target.id] = expr
+                elif isinstance(target, ast.Name) and value is not None:
+                    ctx.symbols[target.id] = value
+                else:
+                    msg = "Only single variable assignments are supported"
+                    raise TypeError(msg)
 
         elif isinstance(node, ast.Import):
             for alias in node.names:
